@@ -104,24 +104,26 @@ def lenInt32 (n : Nat) : Int :=
 
 /-! ### RoundRobin -/
 
-/-- `RoundRobin`: `index` = position in the partition list of the partition the current chunk goes to, `count` =
-messages of that chunk routed so far (Go `int`s; `index` is never negative).  (Since the fix of finding D10; the
-earlier call-counter version is `RoundRobinLegacy` below.) -/
+/-- 2⁶⁴, the modulus of the Go `uint64` call counter -/
+def two64 : Nat := 18446744073709551616
+
+/-- `RoundRobin`: `counter` = number of calls made so far (Go `uint64`, used only under the mutex).  History: the
+pinned tree counted in a `uint32` (`RoundRobinLegacy` below, finding D10: the cycle broke after 2³² calls); a first repair
+kept a position and a per-chunk count instead (`RoundRobinPos`), which starved partitions when one balancer is shared by
+topics of different widths; the current code keeps the original formula with a 64-bit counter. -/
 structure RoundRobin where
   chunkSize : Int          -- `ChunkSize int`
-  index : Nat              -- `index int`
-  count : Int              -- `count int`
+  counter : Nat            -- `counter uint64`
   deriving Repr, DecidableEq
 
 /-- a balancer nobody has called yet -/
-def RoundRobin.fresh (chunk : Int) : RoundRobin := ⟨chunk, 0, 0⟩
+def RoundRobin.fresh (chunk : Int) : RoundRobin := ⟨chunk, 0⟩
 
-/-- `(*RoundRobin).balance`.  `none` = Go would panic (empty partition list). -/
+/-- `(*RoundRobin).balance`.  `none` = Go would panic (empty partition list: `offset % 0`). -/
 def RoundRobin.balance (rr : RoundRobin) (parts : List Int) : RoundRobin × Option Int :=
   let rr := if rr.chunkSize < 1 then { rr with chunkSize := 1 } else rr
-  let rr := if rr.count ≥ rr.chunkSize then { rr with count := 0, index := rr.index + 1 } else rr
-  let rr := if rr.index ≥ parts.length then { rr with index := 0 } else rr
-  ({ rr with count := rr.count + 1 }, parts[rr.index]?)
+  if parts.length = 0 then (rr, none) else
+  ({ rr with counter := (rr.counter + 1) % two64 }, parts[(rr.counter / rr.chunkSize.toNat) % parts.length]?)
 
 /-- A run of calls with a fixed partition list; returns the results in call order. -/
 def RoundRobin.run (rr : RoundRobin) (parts : List Int) : Nat → RoundRobin × List (Option Int)
@@ -131,16 +133,32 @@ def RoundRobin.run (rr : RoundRobin) (parts : List Int) : Nat → RoundRobin × 
     let (rr'', xs) := RoundRobin.run rr' parts n
     (rr'', x :: xs)
 
-/-- calls whose partition list changes from call to call (a Writer without a fixed Topic) -/
+/-- calls whose partition list changes from call to call (a Writer without a fixed Topic, or one balancer shared by
+several topics) -/
 def RoundRobin.runVar (rr : RoundRobin) : List (List Int) → List (Option Int)
   | [] => []
   | parts :: rest => let (rr', x) := rr.balance parts; x :: RoundRobin.runVar rr' rest
 
-/-- where a balancer is after `calls` calls with an `n`-partition list (what the test hook `VerifSetRoundRobinCalls`
-sets): normalised form, `count < chunk` -/
-def RoundRobin.placed (chunk : Int) (calls n : Nat) : RoundRobin :=
-  let c := if chunk < 1 then 1 else chunk.toNat
-  ⟨chunk, (calls / c) % n, Int.ofNat (calls % c)⟩
+/-- where a balancer is after `calls` calls (what the test hook `VerifSetRoundRobinCalls` sets) -/
+def RoundRobin.placed (chunk : Int) (calls _n : Nat) : RoundRobin := ⟨chunk, calls % two64⟩
+
+/-! #### the first repair of D10 (reverted): position in the list + messages of the current chunk -/
+
+structure RoundRobinPos where
+  chunkSize : Int
+  index : Nat
+  count : Int
+  deriving Repr, DecidableEq
+
+def RoundRobinPos.balance (rr : RoundRobinPos) (parts : List Int) : RoundRobinPos × Option Int :=
+  let rr := if rr.chunkSize < 1 then { rr with chunkSize := 1 } else rr
+  let rr := if rr.count ≥ rr.chunkSize then { rr with count := 0, index := rr.index + 1 } else rr
+  let rr := if rr.index ≥ parts.length then { rr with index := 0 } else rr
+  ({ rr with count := rr.count + 1 }, parts[rr.index]?)
+
+def RoundRobinPos.runVar (rr : RoundRobinPos) : List (List Int) → List (Option Int)
+  | [] => []
+  | parts :: rest => let (rr', x) := rr.balance parts; x :: RoundRobinPos.runVar rr' rest
 
 /-! #### the version before the fix of D10: a `uint32` count of the calls made -/
 
